@@ -64,13 +64,6 @@ def _case(draw):
             k = draw(st.integers(1, npop - 4))
             pos = draw(st.lists(st.integers(0, npop - 1), min_size=k, max_size=k, unique=True))
             unknown[str(c)] = [[p, draw(st.sampled_from(['none', 'nan']))] for p in pos]
-    # a series acquired at low gain: the dimmest population sits at 1..3 a.u. of an 18-bit detector, in the quasi-linear
-    # zone of the logicle scale the clustering works on
-    low_gain = draw(st.sampled_from([None, None, None, 1.0, 2.0, 3.0])) if (variant == 'float' and R == 262144 and npop >= 7) else None
-    if low_gain:
-        # up to four of the dimmest populations are discarded at the display edge there; with unknown or piled-up
-        # populations on top fewer than the three the fit needs could remain (a documented refusal, not a failure)
-        piled, unknown, blank_step = [None] * nch, {}, None      # (a far-away blank would push the brightest bead past the detector limit)
     cl = draw(st.sampled_from(['all', 'all', 'one', 'subset']))
     if cl == 'one':
         clustering = [draw(st.integers(0, nch - 1))]
@@ -78,10 +71,19 @@ def _case(draw):
         clustering = draw(st.lists(st.integers(0, nch - 1), min_size=1, max_size=nch - 1, unique=True))
     else:
         clustering = list(range(nch))
-    return dict(low_gain=low_gain, blank_step=blank_step, variant=variant, npop=npop, nch=nch, R=R, laws=laws, sizes=sizes, regime=regime, blank=blank, piled=piled,
+    case = dict(low_gain=None, blank_step=blank_step, variant=variant, npop=npop, nch=nch, R=R, laws=laws, sizes=sizes, regime=regime, blank=blank, piled=piled,
                 unknown=unknown, clustering=clustering, cv=draw(st.floats(0.02, 0.05)),
                 statistic=draw(st.sampled_from(['median', 'mean'])), data_seed=draw(st.integers(0, 2 ** 20)),
                 np_seed=draw(st.integers(0, 2 ** 20)), perm_seed=draw(st.integers(0, 2 ** 20)))
+    # a series acquired at low gain: the dimmest population sits at 1..3 a.u. of an 18-bit detector, in the quasi-linear
+    # zone of the logicle scale the clustering works on.  Derived from the drawn data seed rather than drawn on its own,
+    # so that every other case is the one earlier versions of this generator produced for the same VERIF_SEED.
+    if variant == 'float' and R == 262144 and npop >= 7 and case['data_seed'] % 4 == 0:
+        # up to four of the dimmest populations are discarded at the display edge there; with unknown or piled-up
+        # populations on top fewer than the three the fit needs could remain (a documented refusal, not a failure);
+        # a far-away blank would push the brightest bead past the detector limit
+        case.update(low_gain=1.0 + (case['data_seed'] // 4) % 3, piled=[None] * nch, unknown={}, blank_step=None)
+    return case
 
 
 def strategy(tier):
